@@ -21,10 +21,10 @@ def pat_names(names):
     return pn
 
 
-SPEC_NAME = {"MhlTamperTrace": "TSpec", "MhlCommitTrace": "TSpec", "MhlUpdaterTrace": "TSpec", "MhlHasherTrace": "TSpec"}
+SPEC_NAME = {"MhlTimeTrace": "TSpec", "MhlXmlTrace": "TSpec", "MhlTamperTrace": "TSpec", "MhlCommitTrace": "TSpec", "MhlUpdaterTrace": "TSpec", "MhlHasherTrace": "TSpec"}
 # MhlCommitTrace extends MhlCommit, whose constants are irrelevant for trace validation (every line carries its own)
-EXTRA_CFG = {"MhlTamperTrace": "CONSTANTS\n Order <- c_Order\n NGens <- c_NGens\n MaxFaults = 2\n", "MhlCommitTrace": "CONSTANTS\n Hist <- c_Hist\n Prior <- c_Prior\n W = 1\n Atomic = TRUE\n"}
-EXTRA_DEFS = {"MhlTamperTrace": 'c_Order == << <<>>, <<"d">>, <<"d", "e">>, <<"d2">> >>\nc_NGens == (<<>> :> 2 @@ <<"d">> :> 3 @@ <<"d", "e">> :> 4 @@ <<"d2">> :> 3)\n', "MhlCommitTrace": 'c_Hist == <<"r">>\nc_Prior == ("r" :> 0)\n'}
+EXTRA_CFG = {"MhlUpdaterTrace": "CONSTANTS\n Servers = {\"ok\"}\n Versions = {\"newer\"}\n ExitCodes = {0}\n", "MhlHasherTrace": "CONSTANTS\n K = 4\n MaxLen = 1\n Hashers = {\"md5\"}\n B = 2\n Wd = 2\n", "MhlTimeTrace": "CONSTANTS\n Instants <- c_Instants\n Zones <- c_Zones\n Sizes <- c_Sizes\n Mode = \"at_date\"\n", "MhlXmlTrace": "CONSTANTS\n Fmts <- c_Fmts\n FmtSeqs <- c_FmtSeqs\n MaxRecs = 1\n MaxRefs = 1\n MaxAuthors = 1\n MaxPats = 1\n", "MhlTamperTrace": "CONSTANTS\n Order <- c_Order\n NGens <- c_NGens\n MaxFaults = 2\n", "MhlCommitTrace": "CONSTANTS\n Hist <- c_Hist\n Prior <- c_Prior\n W = 1\n Atomic = TRUE\n"}
+EXTRA_DEFS = {"MhlTimeTrace": 'c_Instants == {0}\nc_Zones == {0}\nc_Sizes == {0}\n', "MhlXmlTrace": 'c_Fmts == <<"c4", "md5", "sha1", "xxh128", "xxh3", "xxh64">>\nc_FmtSeqs == {<<>>}\n', "MhlTamperTrace": 'c_Order == << <<>>, <<"d">>, <<"d", "e">>, <<"d2">> >>\nc_NGens == (<<>> :> 2 @@ <<"d">> :> 3 @@ <<"d", "e">> :> 4 @@ <<"d2">> :> 3)\n', "MhlCommitTrace": 'c_Hist == <<"r">>\nc_Prior == ("r" :> 0)\n'}
 NO_CONSTS = {"MhlEnv", "MhlTamperTrace", "MhlCommitTrace", "MhlXmlTrace", "MhlTimeTrace", "MhlHasherTrace", "MhlUpdaterTrace"}
 
 
